@@ -975,6 +975,9 @@ class Emitter:
                 except Exception: sz = -1
                 if sz == int(x.args[2].text):
                     return ['*%s = *%s; /* typed memcpy %d */' % (s.val(d0.val), s.val(s0.val), sz)]
+        if cal.kind == 'global' and cal.name.startswith('@llvm.memcpy') and x.args[2].kind == 'const' and int(x.args[2].text) in (1, 2, 4, 8):
+            n_ = int(x.args[2].text)      # small constant-size copy: one scalar load/store instead of a byte loop
+            return ['VERIF_MEMCPY_SMALL(%s, %s, %d);' % (s.val(x.args[0]), s.val(x.args[1]), n_ * 8)]
         isvoid = isinstance(x.rty, Void)
         if not isvoid: decl(x.res or ('__unused%d' % id(x)), x.rty)
         lhs = '' if isvoid or not x.res else r + ' = '
